@@ -175,10 +175,10 @@ def _length_spec(c, tx, i, form):
   raise ValueError(form)
 
 
-def _note(c, tx, i, letters, accs, octs, form):
-  acc = c.choice('n%d_acc' % i, accs)
-  letter = c.choice('n%d_letter' % i, letters)
-  octv = c.choice('n%d_oct' % i, octs)
+def _note(c, tx, i, letters, accs, octs, form, pre=''):
+  acc = c.choice('%sn%d_acc' % (pre, i), accs)
+  letter = c.choice('%sn%d_letter' % (pre, i), letters)
+  octv = c.choice('%sn%d_oct' % (pre, i), octs)
   ltxt, factor = _length_spec(c, tx, i, form)
   return dict(kind='note', acc=acc, letter=letter, oct=octv, factor=factor,
               text=(acc or '') + letter + octv + ltxt)
@@ -186,8 +186,9 @@ def _note(c, tx, i, letters, accs, octs, form):
 
 def _header(c, tx, p):
   """Header lines + the values the harness's own reading assigns."""
-  lines = ['X:1', 'T:t']
-  st = dict(meter=None, unit=None, qpm=120.0, tempo=None, key=None)
+  xref = c.int('xref', 1, 3) if p.get('xref_symbolic') else 1
+  lines = ['X:%s' % tx.num(xref), 'T:first title', 'T:second']
+  st = dict(meter=None, unit=None, qpm=120.0, tempo=None, key=None, xref=xref)
   m = p.get('meter')
   if m == 'n/d':
     n = c.int('m_n', 1, 12)
@@ -225,7 +226,7 @@ def _header(c, tx, p):
       ktxt += ' exp'
       st['key_exp_only'] = True
     for letter in kx.get('letters', []):
-      a = c.choice('kx_%s' % letter, ['^', '_', '='])
+      a = c.choice('%skx_%s' % (p.get('pre', ''), letter), ['^', '_', '='])
       ktxt += ' ' + a + letter.lower()
       st['key_explicit'][letter.upper()] = _ACC[a]
   lines.append(ktxt)
@@ -282,7 +283,9 @@ def _expect(c, st, body, pb):
         a, b = notes[-2], notes[-1]
         if not bool(c.eq(a[2] - a[1], b[2] - b[1])):
           st['broken_unequal'] = True
-        adj = (a[2] - a[1]) / (2 ** len(pending))
+        # ABC 2.1 4.4: '>' dotted / halved, '>>' double dotted / quartered,
+        # '>>>' triple dotted / divided by eight
+        adj = (a[2] - a[1]) * (1 - Fraction(1, 2 ** len(pending)))
         if pending[0] == '<':
           adj = -adj
         a[2] = a[2] + adj
@@ -366,12 +369,16 @@ def h_tune(c):
   if out_of_range:
     c.check(len(excs) == 1 and not tunes, 'a pitch outside 0..127 is reported')
     return
-  c.check(len(excs) == 0 and list(tunes) == [1],
-          'a tune of the supported subset parses (X:1, no exception)' +
-          (' [double accidental]' if double else ''))
-  if excs or 1 not in tunes:
+  xr = c.concretize(st['xref'])
+  c.check(len(excs) == 0 and list(tunes) == [xr],
+          'a tune of the supported subset parses (filed under its X: number, '
+          'no exception)' + (' [double accidental]' if double else ''))
+  if excs or xr not in tunes:
     return
-  ns = tunes[1]
+  ns = tunes[xr]
+  c.check(c.eq(ns.reference_number, xr) and
+          ns.sequence_metadata.title == 'first title; second',
+          'reference number and titles from the X: and T: fields')
   got = [(n.pitch, n.start_time, n.end_time) for n in ns.notes]
   c.check(len(got) == len(exp_notes), 'one note per notated note')
   for g, e in zip(got, exp_notes):
@@ -444,6 +451,14 @@ def h_tunebook(c):
   order = c.params.get('order', [1, 2])
   tunes = {1: tune1, 2: tune2}
   book = '\n\n'.join('\n'.join(tunes[i]) for i in order) + '\n'
+  if c.params.get('comment_first'):
+    # a comment / version line directly above the first X: field
+    book = '%abc-2.1\n' + book
+  hdr = c.params.get('header')
+  if hdr:
+    # a file header (a first section without X:) sets defaults for every tune
+    book = '\n'.join(hdr) + '\n\n' + book
+    tune1 = list(hdr) + tune1
   restore = tx.install(ap)
   try:
     both, err = c.raises(ap.parse_abc_tunebook, book)
@@ -463,7 +478,46 @@ def h_tunebook(c):
             'the other tune is exactly what it is when parsed alone')
 
 
-HARNESSES = {'h_tune': h_tune, 'h_tunebook': h_tunebook}
+def h_two_tunes(c):
+  """Two well-formed tunes in one tunebook, each with its own (explicit) key:
+  each parses to what it notates, independently of the other."""
+  ap = c.mod('abc_parser')
+  tx = _Text(c)
+  texts, specs = [], []
+  for ti, key in enumerate(('t1', 't2')):
+    p = dict(c.params[key])
+    p['pre'] = key + '_'
+    lines, st = _header(c, tx, p)
+    lines[0] = 'X:%d' % (ti + 1)
+    body, text = [], ''
+    for i, form in enumerate(p['notes']):
+      tok = _note(c, tx, i, p['letters'], p['accs'], p['octs'], form,
+                  pre=key + '_')
+      body.append(tok)
+      text += tok['text'] + ' '
+    lines.append(text)
+    texts.append('\n'.join(lines))
+    specs.append((st, body))
+  restore = tx.install(ap)
+  try:
+    res, err = c.raises(ap.parse_abc_tunebook, '\n\n'.join(texts) + '\n')
+  finally:
+    restore()
+  c.check(err is None and not res[1] and sorted(res[0]) == [1, 2],
+          'both tunes parse')
+  if err is not None or sorted(res[0]) != [1, 2]:
+    return
+  for ti, (st, body) in enumerate(specs):
+    exp_notes, _ = _expect(c, st, body, c.pb)
+    got = [n.pitch for n in res[0][ti + 1].notes]
+    c.check(len(got) == len(exp_notes) and bool(c.And(
+        [c.eq(a, b[0]) for a, b in zip(got, exp_notes)] or [True])),
+            'each tune has the pitches its own key and accidentals give, '
+            'whatever the other tune declares')
+
+
+HARNESSES = {'h_tune': h_tune, 'h_tunebook': h_tunebook,
+             'h_two_tunes': h_two_tunes}
 
 
 
@@ -538,7 +592,13 @@ def jobs(tier):
       expanded=[0, 1, 1, 2], **base)
   add('h_tune', notes=['|::', 'none', '::|', 'k'], expanded=[0, 0, 0, 1],
       **base)
-  add('h_tune', notes=['none', '|', 'k', '|]'], expanded=None, **base)
+  add('h_tune', notes=['none', '|', 'k', '|]'], expanded=None,
+      xref_symbolic=True, **base)
+  # accidentals end at every kind of bar line, repeat signs included
+  for bar in ('::', ':|:', ':|'):
+    add('h_tune', notes=['|:', 'none', bar, 'none'] + (
+        [':|'] if bar != ':|' else []), key=['C', ''], letters=['F'],
+        accs=[None, '^', '_'], octs=[''])
   # tunebooks
   for bad in (['[CEG]2 C'], ['(3CDE F'], ['V:1', 'CDE'], ['P:A', 'CDE'],
               ['C D |1 E :|2 F |'], ['C D E']):
@@ -546,4 +606,14 @@ def jobs(tier):
       continue
     add('h_tunebook', bad=bad)
   add('h_tunebook', bad=['[CEG]2 C'], order=[2, 1])
+  add('h_tunebook', bad=['(3CDE F'], comment_first=True)
+  add('h_tunebook', bad=['V:1', 'CDE'], header=['L:1/4', 'M:3/4'])
+  # two tunes with explicit-accidental keys in one tunebook
+  add('h_two_tunes',
+      t1=dict(key=['D', ''], key_explicit={'exp': True, 'letters': ['B', 'F']},
+              notes=['none', 'none'], letters=['B', 'F', 'E'], accs=[None],
+              octs=['']),
+      t2=dict(key=['C', ''], key_explicit={'exp': True, 'letters': ['C']},
+              notes=['none', 'none'], letters=['B', 'F', 'c'], accs=[None],
+              octs=['']))
   return J
